@@ -37,21 +37,6 @@ func (o *Obligation) script(model bool) string {
 		b.WriteString(h)
 		b.WriteByte('\n')
 	}
-	quantified := strings.Contains(o.goal, "(forall ") || strings.Contains(o.goal, "(exists ")
-	if !quantified {
-		for _, l := range e.body[:o.prefix] {
-			if strings.Contains(l, "(forall ") || strings.Contains(l, "(exists ") {
-				quantified = true
-				break
-			}
-		}
-	}
-	if quantified {
-		b.WriteString("(declare-fun eidx (" + bv64 + " " + bv64 + ") " + bv64 + ")\n")
-		b.WriteString("(assert (forall ((ea " + bv64 + ") (eb " + bv64 + ")) (! (= (eidx ea eb) (bvadd ea eb)) :pattern ((eidx ea eb)))))\n")
-	} else {
-		b.WriteString("(define-fun eidx ((ea " + bv64 + ") (eb " + bv64 + ")) " + bv64 + " (bvadd ea eb))\n")
-	}
 	for _, d := range e.decls {
 		b.WriteString(d)
 		b.WriteByte('\n')
@@ -113,6 +98,18 @@ func runSolver(ctx context.Context, s Solver, file string) solveResult {
 func solveObligation(o *Obligation, workDir string, timeoutMs int, agree bool) {
 	if o.Status != "" {
 		return
+	}
+	if o.enc != nil && o.enc.c != nil {
+		if t := o.enc.c.Options["timeout"]; t != "" {
+			var ms int
+			fmt.Sscanf(t, "%d", &ms)
+			if ms > timeoutMs {
+				timeoutMs = ms
+			}
+		}
+	}
+	if o.expectSat && timeoutMs > 3000 {
+		timeoutMs = 3000 // reachability covers: "not refuted quickly" is enough
 	}
 	file := filepath.Join(workDir, sanitize(o.Name)+".smt2")
 	_ = os.WriteFile(file, []byte(o.script(true)), 0o644)
